@@ -5,6 +5,7 @@ in which constructor argument of the object the parser returns.  Written by hand
 nothing here is generated from the Python source.
 -/
 import TonVerif.Spec.Tlb.PyViewTx
+import TonVerif.Model.TlbRdBlk
 
 namespace TonVerif.Tlb
 open TonVerif
@@ -38,6 +39,20 @@ def view_ConsensusConfig : Val → Val
     Rd.obj "ConsensusConfig" ([("type_", Rd.str "consensus_config_v4"), ("flags", x.get "flags"),
       ("new_catchain_ids", x.get "new_catchain_ids"), ("round_candidates", x.get "round_candidates")] ++ consensusTailView x ++
       [("proto_version", x.get "proto_version"), ("catchain_max_blocks_coeff", x.get "catchain_max_blocks_coeff")])
+  | _ => .unit
+
+/-- `ValidatorSet`: `validators#11` holds an inline `Hashmap 16 ValidatorDescr` (`load_hashmap`), `validators_ext#12` a
+    `HashmapE 16 ValidatorDescr` (`load_dict`: `None` when empty); `list` is the dict position ↦ ValidatorDescr, in key order;
+    `validators#11` has no `total_weight`: `None` -/
+def view_ValidatorSet : Val → Val
+  | .con "validators" x =>
+    Rd.obj "ValidatorSet" [("type_", Rd.str "validators"), ("utime_since", x.get "utime_since"), ("utime_until", x.get "utime_until"),
+      ("total", x.get "total"), ("main", x.get "main"), ("total_weight", .unit),
+      ("list", Rd.dict (flattenF view_ValidatorDescr 17 16 [] (x.get "list")))]
+  | .con "validators_ext" x =>
+    Rd.obj "ValidatorSet" [("type_", Rd.str "validators_ext"), ("utime_since", x.get "utime_since"), ("utime_until", x.get "utime_until"),
+      ("total", x.get "total"), ("main", x.get "main"), ("total_weight", x.get "total_weight"),
+      ("list", viewDict view_ValidatorDescr 16 (x.get "list"))]
   | _ => .unit
 
 /-! ### block.py -/
